@@ -230,7 +230,7 @@ type opRec struct {
 	From     int    `json:"server_log_from"`
 	To       int    `json:"server_log_to"`
 	Err      string `json:"err,omitempty"`
-	Scripted string `json:"scripted_failure,omitempty"`           // the harness made this call fail: 503 | veto
+	Scripted string `json:"scripted_failure,omitempty"`        // the harness made this call fail: 503 | veto
 	NoSess   bool   `json:"no_session_to_terminate,omitempty"` // TerminateSession while no session id is current
 	HasBoom  bool   `json:"err_carries_before_request_error,omitempty"`
 	Deadline bool   `json:"watchdog,omitempty"`
@@ -879,9 +879,15 @@ func (j *judge) run(res *runResult) {
 				fail("session-id-stale"+after, fmt.Sprintf("no session id is current (none issued yet, or the last one was deleted), the request carries Mcp-Session-Id %q issued earlier", got))
 			case curSid == "":
 				fail("session-id-unissued"+after, fmt.Sprintf("no session id has been issued, the request carries Mcp-Session-Id %q", got))
+			case len(got) == 0 && s.Kind == "initialize":
+				// a new handshake after Close without termination: asking for a fresh session is as good as naming the old one
+				r.Count("reinitialize_without_the_still_valid_session_id", 1)
 			case len(got) == 0:
 				fail("session-id-missing", fmt.Sprintf("request sent after the session id %q was issued carries no Mcp-Session-Id", curSid))
 			case len(got) == 1 && got[0] == curSid:
+				if s.Kind == "initialize" {
+					r.Count("reinitialize_with_the_still_valid_session_id", 1)
+				}
 			case len(got) > 1 && contains(got, curSid):
 				fail("session-id-duplicated"+after, fmt.Sprintf("request carries %d Mcp-Session-Id values %q, the current session id is %q", len(got), got, curSid))
 			case stale:
@@ -1211,6 +1217,9 @@ func main() {
 	kit.Silence()
 	r := vh.NewRun("C19", "exploration")
 	origFactory := mcp.NewHTTPReqHandler
+	if tr, ok := http.DefaultTransport.(*http.Transport); ok {
+		tr.DialContext = dialResetOnClose // clients without a configured handler use the default transport
+	}
 	j := &judge{r: r, samples: map[string]interface{}{}, succ: map[string]map[string]bool{}}
 	clients := []string{clStream, clLegacy}
 
@@ -1360,8 +1369,11 @@ func main() {
 		"plus seeded random histories per configuration (quick 2, thorough 12: random order / repetition of operations, pushes and provider toggles). Every HTTP request recorded by the reference server is one evaluation, judged for static headers, session id, path, handler tag, before-request tag and context token. "+
 		"Second pass: before-request returns an error on its k-th invocation (every k of the canonical history in each of the 16 configurations with before-request x 2 clients; random histories: two seeded k each, in thorough every k for 4 of them per configuration): nothing may be sent and the issuing operation must return that error. "+
 		"Third pass (all 32 configurations x 2 clients; thorough adds 2 random histories each): Initialize #1 (token attempt-1) fails because the server answers its first request with 503, because before-request vetoes contexts carrying attempt-1 (configurations with before-request), or because the server hangs up on every connection before reading a request (it lets connections through afterwards; mode name 'refuse'); Initialize #2 on the same client object (token attempt-2), then the usual history. "+
-		"Foreground requests must show the token of their own call, background requests the token of the handshake that succeeded, in the before-request log and in the handler log; a token of the failed attempt is reported as stale. Context tokens are unique per run, so a value leaking from an earlier, closed client of the same process would also be seen. "+
-		"A case is distinct by (client, request kind, configuration bitmask), vetoed cases by (client, vetoed request kind, bitmask), retry cases by (failure mode, client, request kind, bitmask); all judged requests count, conforming or not.",
+		"Fourth pass, succession histories (all 32 configurations x 2 clients; quick 1, thorough 4 per configuration, thorough adds 3 seeded before-request veto positions each): after Initialize a seeded random Euler circuit over the operation kinds {6 request methods, roots list_changed, server-issued roots/list, server-issued unknown method, TerminateSession, an operation answered 503 then retried, an operation vetoed by before-request then retried, Streamable only: Close + Initialize on the same client object}, so that every kind is directly followed by every kind (itself included) on ONE client object, each call under its own context token. A terminated Streamable session stays terminated for the step that follows the DELETE (sent without session), then the harness re-initialises; the succession this separates is executed again at the end. The reference server hands out a fresh session id per initialize / legacy connect. "+
+		"Per request at the server, exact multiplicities: each configured static header with exactly its configured values (none when not configured); Mcp-Session-Id exactly once with the id handed out by the latest answered initialize that was not deleted since, and absent while none is current (first initialize, everything between a DELETE and the next handshake's answer; an id handed out earlier is reported as stale, two values as duplicated); exactly one before-request tag; the context header that before-request adds from its ctx exactly once with this request's own token (another request's token next to it is reported as foreign). "+
+		"Foreground requests must show the token of their own call, background requests the token of the latest started Initialize (the one whose handshake opened their stream), in the before-request log and in the handler log; a token of the failed attempt is reported as stale. Context tokens are unique per run, so a value leaking from an earlier, closed client of the same process would also be seen. "+
+		"A case is distinct by (client, request kind, configuration bitmask), vetoed cases by (client, vetoed request kind, bitmask), retry cases by (failure mode, client, request kind, bitmask), successions by (client, ordered pair of kinds, static headers y/n, before-request y/n; only steps during which a request reached the server); all judged requests count, conforming or not. "+
+		"Non-vacuity: every succession history without veto must have executed all n*n ordered pairs (169 Streamable, 144 legacy), and every Streamable request kind must have been judged after a termination on the same client.",
 		[]string{
 			"there is no public option for a custom http.Client; the recording request handler substitutes its own client, so 'through the configured handler' also covers 'with the configured client'",
 			"operations of one client are issued sequentially; a foreground request is attributed to the call during which it arrived at the server, background requests (listening-stream GET, answers to server-issued requests) by kind",
@@ -1372,5 +1384,9 @@ func main() {
 			"the context handed to the configured request handler is held to the same rule as the one handed to before-request (the statement names only the latter explicitly); reported under separate handler-* symptoms",
 			"a second Initialize that fails after a failed first one is accepted (client not re-initialisable) unless it fails with the before-request error although its own context passes the before-request function",
 			"after a 503 on initialize the Streamable client may not open a listening stream; the harness waits 300 ms for it and otherwise skips the server pushes of that history (coverage, not verdict)",
+			"'once one has been issued, the session id' is read as: the id currently in force - after a successful DELETE none is, until the next initialize is answered; an initialize sent after Close WITHOUT termination may (and with this library does) carry the still-valid id",
+			"a call the harness made fail by a scripted 503, and TerminateSession while no session is current, may return an error or not; only the requests they emit are judged",
+			"the legacy SSE client cannot be initialised again after Close and its TerminateSession sends nothing, so Close + Initialize successions exist for the Streamable client only",
+			"client sockets are reset on close (SO_LINGER 0) to keep thousands of short-lived clients from exhausting ephemeral ports; the 'refuse' mode hangs up on accepted connections instead of unbinding the port",
 		})
 }
